@@ -1,6 +1,7 @@
 import Driver.C11
 import Driver.C16
 import Driver.C01
+import Driver.C02
 import Driver.C06
 import Driver.C12
 import Driver.C13
@@ -40,6 +41,7 @@ def dispatch (prop : String) (c obs : String) : String × String × Bool :=
   | "C08" => C08.run c obs
   | "C01" => C01.run c obs
   | "C04" => C01.run c obs
+  | "C02" => C02.run c obs
   | "C12" => C12.run c obs
   | "C13" => C13.run c obs
   | "C20e2e" => C12.run c obs
